@@ -27,6 +27,9 @@ RULE = (
     "str literal of equal / different length) x target (Bit, bool, BitVector/Unsigned/Signed[1..3]) x form (<<= on a "
     "Signal in a clocked and in a concurrent context, @= and .value on a Variable, ^= and .push on a Signal with "
     "default, .next, static slice target of a BitVector/Unsigned/Signed, element of a vector, element of an Array, "
+    "typed view of a differently typed root as target (port.signed <<= src, variable.unsigned @= src, "
+    "port[h:l].signed <<= src for roots BitVector/Unsigned/Signed; classified by the view's type, read back through "
+    "the root), "
     "Signal[T](src) / Variable[T](src) inside the context, port connection into / out of a sub-entity, "
     "function-return merge, if-expression merge) x qualifier of the source (input Port, Signal, Variable, Temporary, "
     "constant); non-trivial = a may-accept cell whose source type differs from the target type that was accepted and "
